@@ -48,13 +48,13 @@ Proof.
   destruct (map_get (smap s) k) as [id|].
   - destruct (get_ent s id) as [e|] eqn:G; [|split; assumption].
     pose proof (updateExpire_range (sexpire e) expire now (proj1 (E e (get_ent_in s id e G))) He Hf) as U.
-    destruct (updateExpire (sexpire e) expire now) as [ex rs]. cbn [fst] in *. split; [exact C|].
-    intros e' H. cbn [send ents set_queue] in H. apply in_upd_ent in H. destruct H as (e0 & H0 & ->).
-    change (scap (send _ _)) with (scap s).
+    destruct (updateExpire (sexpire e) expire now) as [ex rs]. cbn [fst] in *. split; [rewrite scap_si; exact C|].
+    intros e' H. rewrite ents_si in H. apply in_upd_ent in H. destruct H as (e0 & H0 & ->).
+    rewrite scap_si. change (scap (upd_ent s id (fun e1 => e_weight (e_val (e_expire e1 ex) v) cost))) with (scap s).
     destruct (sid e0 =? id); [cbn [sexpire sweight e_weight e_val e_expire]; lia|apply E, H0].
-  - destruct dk; cbn [negb fst]; [|split; assumption]. split; [exact C|].
-    intros e' H. cbn [send ents set_queue set_nextid set_smap set_ents] in H.
-    change (scap (send _ _)) with (scap s). destruct H as [<-|H]; [cbn [sexpire sweight]; lia|apply E, H].
+  - destruct dk; cbn [negb fst]; [|split; assumption]. split; [rewrite scap_si; exact C|].
+    intros e' H. rewrite ents_si in H. cbn [ents set_nextid set_smap set_ents] in H.
+    rewrite scap_si. cbn [scap set_nextid set_smap set_ents]. destruct H as [<-|H]; [cbn [sexpire sweight]; lia|apply E, H].
 Qed.
 
 (* ---------- C06: Set returns false only for oversize cost or a doorkeeper first sight, and then changes nothing ---------- *)
@@ -88,19 +88,19 @@ Proof.
     destruct (updateExpire (sexpire e) (setExpire now ttl) now) as [ex rs]. cbn [fst] in U.
     intro H. inversion H. clear H.
     set (f := fun e0 => e_weight (e_val (e_expire e0 ex) v) (if cost =? 0 then 1 else cost)).
-    exists (f e). unfold lookup_live. cbn [send sclosed set_queue]. change (sclosed (upd_ent s id f)) with (sclosed s).
-    rewrite Ecl. change (smap (send (upd_ent s id f) _)) with (smap s). rewrite Em.
-    change (get_ent (send (upd_ent s id f) _) id) with (get_ent (upd_ent s id f) id).
+    exists (f e). unfold lookup_live. rewrite sclosed_si. change (sclosed (upd_ent s id f)) with (sclosed s).
+    rewrite Ecl. rewrite smap_si. change (smap (upd_ent s id f)) with (smap s). rewrite Em.
+    rewrite get_ent_si.
     rewrite get_ent_upd by (intro; reflexivity). rewrite G. rewrite Si, Z.eqb_refl.
-    change (nowc (send (upd_ent s id f) _)) with (nowc s).
+    rewrite nowc_si. change (nowc (upd_ent s id f)) with (nowc s).
     change (sexpire (f e)) with ex.
     rewrite fresh_served by lia.
     split; [reflexivity|]. split; [reflexivity|exact K].
   - destruct dk; cbn [negb]; intro H; inversion H. clear H.
-    eexists. unfold lookup_live. cbn [send sclosed set_queue set_nextid set_smap set_ents smap]. rewrite Ecl.
-    rewrite map_get_set_same.
-    unfold get_ent. cbn [ents send set_queue set_nextid set_smap set_ents find sid]. rewrite Z.eqb_refl.
-    cbn [sexpire nowc send set_queue set_nextid set_smap set_ents].
+    eexists. unfold lookup_live. rewrite sclosed_si, smap_si. cbn [sclosed set_nextid set_smap set_ents smap]. rewrite Ecl.
+    rewrite map_get_set_same. rewrite get_ent_si, nowc_si.
+    unfold get_ent. cbn [ents set_nextid set_smap set_ents find sid]. rewrite Z.eqb_refl.
+    cbn [sexpire nowc set_nextid set_smap set_ents].
     rewrite fresh_served by lia. split; [reflexivity|]. split; reflexivity.
 Qed.
 
@@ -236,7 +236,7 @@ Proof.
   - unfold sset. destruct (sset3 _ _ _ _ _ _ _ _) as [[s' ok] st] eqn:E. cbn [fst].
     unfold sset3 in E. destruct (_ <? _); [inversion E; lia|].
     unfold set_section in E. destruct (sclosed s); [inversion E; lia|].
-    destruct (map_get _ _); [destruct (get_ent _ _); [destruct (updateExpire _ _ _)|]|destruct (negb _)]; inversion E; cbn; lia.
+    destruct (map_get _ _); [destruct (get_ent _ _); [destruct (updateExpire _ _ _)|]|destruct (negb _)]; inversion E; rewrite ?hits_si, ?misses_si; cbn; lia.
   - unfold sdelete. destruct (sclosed s); [lia|]. destruct (map_get _ _); cbn; lia.
   - unfold sink_nth. destruct (nth_error _ _); [|cbn; lia].
     match goal with |- context [sinkWrite ?a ?b ?c ?d ?e] => destruct (sinkWrite_counts a b c d e) as [A B] end. cbn in *. lia.
@@ -250,7 +250,7 @@ Proof.
       cbn [scap] in E. destruct (_ <? _); [inversion E; cbn; lia|].
       unfold set_section in E. cbn [sclosed set_counts smap] in E.
       destruct (sclosed s); [inversion E; cbn; lia|].
-      destruct (map_get _ _); [destruct (get_ent _ _); [destruct (updateExpire _ _ _)|]|destruct (negb _)]; inversion E; cbn; lia.
+      destruct (map_get _ _); [destruct (get_ent _ _); [destruct (updateExpire _ _ _)|]|destruct (negb _)]; inversion E; rewrite ?hits_si, ?misses_si; cbn; lia.
   - destruct (map_get (smap s) _); [|cbn; lia].
     match goal with |- context [removeEntry ?a ?b ?c ?d] => destruct (removeEntry_counts a b c d) as [A B] end. cbn in *. lia.
 Qed.
